@@ -499,16 +499,17 @@ Definition check_C27 (s0 : snap) (tr : list (action * snap)) : bool :=
 (* abstract snapshot: per shell 0 none / 1 err / 2 connected to the db holder /
    3 connected to a daemon without the db / 4 dropped / 5 gone; number of live
    daemons; number of listening ones; path: 0 none, 1 file without live owner,
-   2 owner holds the db, 3 owner without db; database locked? *)
-Definition asnap := (list N * N * N * N * bool)%type.
+   2 owner holds the db, 3 owner without db; database locked?; number of live
+   daemons of the outdated API version *)
+Definition asnap := (list N * N * N * N * bool * N)%type.
 
 Definition asnap_eqb (a b : asnap) : bool :=
   match a, b with
-  | (s1, l1, n1, p1, k1), (s2, l2, n2, p2, k2) =>
-    list_eqb N.eqb s1 s2 && (l1 =? l2) && (n1 =? n2) && (p1 =? p2) && Bool.eqb k1 k2
+  | (s1, l1, n1, p1, k1, o1), (s2, l2, n2, p2, k2, o2) =>
+    list_eqb N.eqb s1 s2 && (l1 =? l2) && (n1 =? n2) && (p1 =? p2) && Bool.eqb k1 k2 && (o1 =? o2)
   end.
 
-Definition abs_impl (s : snap) : asnap :=
+Definition abs_impl (olds : list N) (s : snap) : asnap :=
   (map (fun o => match o with
                  | ONone => 0 | OErr => 1
                  | OConn p => if oN_eqb (sn_lock s) (Some p) then 2 else 3
@@ -518,7 +519,8 @@ Definition abs_impl (s : snap) : asnap :=
    match sn_owner s with
    | Some p => if oN_eqb (sn_lock s) (Some p) then 2 else 3
    | None => if sn_exists s then 1 else 0 end,
-   match sn_lock s with Some _ => true | None => false end).
+   match sn_lock s with Some _ => true | None => false end,
+   N.of_nat (length (filter (fun d : N * bool => memN (fst d) olds) (sn_daemons s)))).
 
 Definition listening_pc (p : dpc) : bool :=
   match p with DOpenDB | DServe | DExit1 | DExit2 | DExit3 => true | _ => false end.
@@ -534,7 +536,8 @@ Definition abs_model (st : state) : asnap :=
    match sock st with
    | SkNone => 0 | SkStale => 1
    | SkOwned d => if olock_eqb (lock st) (Some d) then 2 else 3 end,
-   match lock st with Some _ => true | None => false end)%N.
+   match lock st with Some _ => true | None => false end,
+   N.of_nat (length (filter (fun x => d_old x && negb (dpc_eqb (d_pc x) DDead)) (ds st))))%N.
 
 Definition begin_all (st : state) (l : list nat) : state :=
   fold_left (fun st s => match step st (LBegin s) with Some st' => st' | None => st end) l st.
@@ -575,8 +578,9 @@ Definition model_init (c : case) : state :=
 
 Definition corr_ok (c : case) : bool :=
   if c_corr c then
-    asnap_eqb (abs_model (model_init c)) (abs_impl (c_s0 c))
-    && model_accepts [model_init c] (map (fun p => (fst p, abs_impl (snd p))) (c_trace c))
+    let olds := if c_old c then map fst (sn_daemons (c_s0 c)) else [] in
+    asnap_eqb (abs_model (model_init c)) (abs_impl olds (c_s0 c))
+    && model_accepts [model_init c] (map (fun p => (fst p, abs_impl olds (snd p))) (c_trace c))
   else true.
 
 Definition judge1 (c : case) : N :=
